@@ -72,6 +72,9 @@ def run(ctx) -> None:
     AD.neg_symmetry(ctx, m, "DateTime")
     _timedelta_arms(ctx)
     AD.carry_blocks(ctx)
+    AD.month_clamp_order(ctx)      # every add() runs the month-end clamp, whatever the units
+    from . import C15
+    C15.clamp_dependencies(ctx)
     sites = [s for s in recon.sites_in(m, ["DateTime.add"])]
     for s in sites:
         recon.check_site(ctx, s)
